@@ -198,6 +198,45 @@ func init() {
 			return i.ts.UF(name, ts)
 		},
 		"vxPause": func(fr *frame, args []value) value { return nil },
+		// instrumentation points (inserted by instrument.go in front of every synchronisation operation of the
+		// harness package): the engine only numbers them per goroutine; natively they enforce a schedule
+		"vxSchedPoint": func(fr *frame, args []value) value {
+			if sc := fr.i.sched; sc != nil {
+				g := fr.g
+				if g == nil {
+					g = sc.cur
+				}
+				g.points++
+			}
+			return nil
+		},
+		"vxSchedReset": func(fr *frame, args []value) value { return nil },
+		// resume point behind a possibly blocking operation: passed when the goroutine runs again
+		"vxSchedAfter": func(fr *frame, args []value) value {
+			if sc := fr.i.sched; sc != nil {
+				g := fr.g
+				if g == nil {
+					g = sc.cur
+				}
+				g.points++
+				sc.record(g)
+			}
+			return nil
+		},
+		"vxGo": func(fr *frame, args []value) value {
+			sc := fr.i.sched
+			if sc == nil {
+				fr.i.unsupported("go statement (sequential mode)")
+			}
+			g := fr.g
+			if g == nil {
+				g = sc.cur
+			}
+			g.points++
+			sc.record(g)
+			sc.spawn(fr, args[0], nil)
+			return nil
+		},
 		"vxProcs": func(fr *frame, args []value) value { return nil },
 		"vxQuiesce": func(fr *frame, args []value) value {
 			if fr.i.sched == nil {
